@@ -66,11 +66,11 @@ def dump (st : St) : St × String :=
   -- Front()/Back() in the harness' walk run lazySetup
   let st := { st with dh := st.lists.toList.foldl (fun h l => h.lazySetup l) st.dh }
   let eparts := st.elems.toList.map (fun e =>
+    let ins := String.join (st.lists.toList.map (fun l => bit (st.dh.elemIn e l)))
     match e with
-    | none => "nil"
+    | none => s!"nil/{ins}"      -- `In` is documented for a nil element; `Ok`/`Value` are not asked of it
     | some a =>
       let n := st.dh.node a
-      let ins := String.join (st.lists.toList.map (fun l => bit (n.list == some l)))
       s!"{bit n.ok}{n.item}/{ins}")
   let iparts := st.items.toList.map (fun e =>
     match e with
